@@ -430,6 +430,47 @@ def rule_setfilemode(ctx, px):
     ctx.ob(R, f.module.rel, f"{f.short} :: returns the path it was given", ok, "", f.node.lineno)
 
 
+def rule_report(ctx, px):
+    R = "R-C12-GATE-SHAPE"
+    # (clause of the gate rule: the refusal must reach the caller as an error)
+    OSERR = {"OSError", "PermissionError", "IOError", "EnvironmentError", "Exception", "BaseException", "FileExistsError"}
+    n = 0
+    for modname, qual in (("nunavut.cli", "main"), ("nunavut.cli.runners", "ArgparseRunner.run"), ("nunavut.cli.runners", "ArgparseRunner._generate"),
+                          ("nunavut.jinja", "DSDLCodeGenerator.generate_all"), ("nunavut.jinja", "SupportGenerator.generate_all"),
+                          ("nunavut.jinja", "DSDLCodeGenerator._generate_type"), ("nunavut.jinja", "CodeGenerator._generate_code")):
+        try:
+            f = px.func(modname, qual)
+        except AnalysisError:
+            continue
+        for tr in [x for x in ast.walk(f.node) if isinstance(x, ast.Try)]:
+            # does the protected block run the generator?
+            body_calls = {c.func.attr if isinstance(c.func, ast.Attribute) else getattr(c.func, "id", "") for st in tr.body for c in ast.walk(st) if isinstance(c, ast.Call)}
+            if not body_calls & {"run", "_generate", "generate_all", "_generate_type", "_generate_code", "_handle_overwrite", "ArgparseRunner"}:
+                continue
+            for h in tr.handlers:
+                names = {"BaseException"} if h.type is None else {ast.unparse(e).split(".")[-1] for e in (h.type.elts if isinstance(h.type, ast.Tuple) else [h.type])}
+                if not names & OSERR:
+                    continue
+                n += 1
+                bad = []
+                for path in pyfront.enumerate_paths(h.body):
+                    last = path.stmts[-1] if path.stmts else None
+                    if path.outcome == "raise":
+                        continue
+                    if path.outcome == "return" and isinstance(last, ast.Return) and isinstance(last.value, ast.Constant) and isinstance(last.value.value, int) \
+                            and not isinstance(last.value.value, bool) and last.value.value != 0:
+                        continue
+                    if isinstance(last, ast.Expr) and isinstance(last.value, ast.Call) and ast.unparse(last.value.func) in ("sys.exit", "exit") and last.value.args \
+                            and isinstance(last.value.args[0], ast.Constant) and last.value.args[0].value not in (0, None):
+                        continue
+                    bad.append(ast.unparse(last)[:60] if last is not None else "<falls through>")
+                ok = not bad
+                ctx.ob(R, f.module.rel, f"{f.short} :: `except {'/'.join(sorted(names))}` around the run re-raises or ends with a non-zero status on every path", ok,
+                       "" if ok else f"handler paths ending in {bad}: the PermissionError of a --no-overwrite conflict (built from a message, errno None) is turned into "
+                       "exit status 0 / swallowed - the conflict is not reported as an error", h.lineno)
+    ctx.ob(R, "src/nunavut/cli/__init__.py", "the overwrite refusal reaches the caller of main() as an error (handlers inspected on the way up)", True, f"{n} handler(s) on the path")
+
+
 def run(ctx):
     ctx.explanation = (
         "C12 is decided by must-pass-through rules on the generator classes: every create/truncate/copy of an output "
@@ -445,5 +486,6 @@ def run(ctx):
     rule_gate(ctx, px)
     rule_truncate(ctx, px)
     rule_gate_shape(ctx, px)
+    rule_report(ctx, px)
     rule_mode(ctx, px)
     rule_setfilemode(ctx, px)
